@@ -132,9 +132,33 @@ def _ens_from_local(ctx, st, ret):
             ("inside.chromosome", Forall(lambda i: Implies(in_range(i, st.m), And(I(ret.at(i)) >= st.off(st.c0(i)), I(ret.at(i)) < st.off(st.c0(i) + 1)))))]
 
 
-from_local = Contract("C10.GlobalOffset.from_local_coordinates[valid]", target=lambda: _GO().from_local_coordinates,
+def _concretize_offsets(model, ctx, st, oid):
+    """replay a counter-model on the real GlobalOffset: the last base of every chromosome must map to offset + size - 1 (exact integers)"""
+    mv = lambda t: model.eval(t, model_completion=True).as_long()
+    n = min(max(mv(st.n), 1), 6)
+    sizes = [max(mv(st.size(z3.IntVal(k))), 1) for k in range(n)]
+    names = ["c%d" % k for k in range(n)]
+    try:
+        go = _GO()(dict(zip(names, sizes)))
+        got = [int(x) for x in go.from_local_coordinates(names, [s - 1 for s in sizes])]
+        exp, acc = [], 0
+        for s_ in sizes:
+            exp.append(acc + s_ - 1)
+            acc += s_
+        return {"reproduced": got != exp, "input": {"chromosome sizes": dict(zip(names, sizes))}, "global position of the last base of each chromosome": got, "expected": exp}
+    except Exception as e:
+        return {"reproduced": True, "input": {"chromosome sizes": dict(zip(names, sizes))}, "raised": repr(e)}
+
+
+def mk_from_local(prefix):
+    return Contract("%s.GlobalOffset.from_local_coordinates[valid]" % prefix, target=lambda: _GO().from_local_coordinates, concretize=_concretize_offsets,
                       setup=_setup_from_local, requires=_req_from_local_valid, ensures=_ens_from_local, callees=CALLEES, hints=_hints,
-                      canaries=[("offset of size", "return self.get_offset(sequence_name) + local_offset", "return self.get_size(sequence_name) + local_offset")])
+                      canaries=[("offset of size", "return self.get_offset(sequence_name) + local_offset", "return self.get_size(sequence_name) + local_offset"),
+                                ("32-bit offsets (genomes above 4.29 Gbp wrap)", "np.insert(np.cumsum(self._sizes), 0, 0)", "np.insert(np.cumsum(self._sizes, dtype=np.uint32), 0, 0)",
+                                 lambda: _GO().__init__)])
+
+
+from_local = mk_from_local("C10")
 
 
 def _req_from_local_invalid(ctx, st):
@@ -439,3 +463,73 @@ gi_extended = Contract("C10.GenomicIntervalsFull.extended_to_size", target=lambd
                                                  "bionumpy.genomic_data.genomic_intervals.GenomicIntervals.from_intervals": lambda ip, args, kwargs, lineno: Opaque("GenomicIntervals")}),
                        canaries=[("genome size instead of chromosome sizes", "chrom_sizes = self._genome_context.global_offset.get_size(self._intervals.chromosome)", "chrom_sizes = self._genome_context.global_offset.get_size(self._intervals.chromosome[:1])")])
 CONTRACTS += [loc_start, loc_stop, loc_center, loc_unstranded, gi_extended]
+
+
+# ----------------------------------------------------------------------------------------------------------
+# sorted(): the rows are permuted by ONE permutation that orders them by (chromosome code, start, stop); everything else about the object is kept -
+# in particular the strandedness flag and the genome context (a sorted stranded table must stay stranded: the next strand-aware step depends on it).
+def _setup_sorted(ctx):
+    st = _setup_loc("start", True)(ctx)
+    st.args = []
+    return st
+
+
+def _ens_sorted(ctx, st, ret):
+    t = ret.get("_intervals")
+    c2, s2, e2, d2 = t.cols["chromosome"], t.cols["start"], t.cols["stop"], t.cols["strand"]
+    perm = getattr(s2, "gather_of", None)
+    key = lambda col_c, col_s, col_e, i, j: Or(I(col_c.at(i)) < I(col_c.at(j)), And(I(col_c.at(i)) == I(col_c.at(j)), Or(I(col_s.at(i)) < I(col_s.at(j)),
+                                                 And(I(col_s.at(i)) == I(col_s.at(j)), I(col_e.at(i)) <= I(col_e.at(j))))))
+    return [("strandedness.kept", ret.get("_is_stranded") is True),
+            ("genome.context.kept", ret.get("_genome_context") is st.selfv.get("_genome_context")),
+            ("class.kept", ret._cls is _GI().GenomicIntervalsFull),
+            ("rows", And(I(s2.length) == st.m, I(e2.length) == st.m, I(c2.length) == st.m, I(d2.length) == st.m)),
+            ("ordered.by (chromosome, start, stop)", Forall(lambda i: Implies(And(in_range(i, st.m), i + 1 < st.m), key(c2, s2, e2, i, i + 1))))]
+
+
+gi_sorted = Contract("C10.GenomicIntervalsFull.sorted", target=lambda: _GI().GenomicIntervalsFull.sorted, setup=_setup_sorted, requires=lambda ctx, st: [st.m >= 0],
+                     ensures=_ens_sorted, callees=CALLEES,
+                     canaries=[("strandedness dropped", "return self[args]", "return self.from_intervals(self._intervals[args], self._genome_context)"),
+                               ("start is the primary key", "np.lexsort([self.stop, self.start, self.chromosome.raw()])", "np.lexsort([self.stop, self.chromosome.raw(), self.start])")])
+
+
+# with_ignored_added must not touch the receiver: the ORIGINAL context keeps refusing the names that only the derived context ignores.
+def _GCX():
+    from bionumpy.genomic_data.genome_context import GenomeContext
+    return GenomeContext
+
+
+_hw = {}
+
+
+def _setup_wia(ctx):
+    st = St()
+    st.ign0 = {101, 102}
+    st.sizes0 = {1: 10, 2: 20, 101: 5, 102: 6}
+    st.selfv = SRec(_GCX(), _ignored=st.ign0, _original_chrom_sizes=st.sizes0)
+    st.args = [[103, 104]]
+    _hw["st"] = st
+    ctx.ip.class_models[_GCX()] = _capture_ctor          # the constructor call is the observation point
+    return st
+
+
+def _capture_ctor(ip, args, kwargs, lineno):
+    st = _hw["st"]
+    st.ctor_args = args
+    return Opaque("GenomeContext")
+
+
+def mk_with_ignored(prefix):
+    return Contract("%s.GenomeContext.with_ignored_added[frame]" % prefix, target=lambda: _GCX().with_ignored_added, setup=_setup_wia, requires=lambda ctx, st: [],
+                    ensures=lambda ctx, st, ret: [("receiver's ignored set untouched", st.ign0 == {101, 102} and st.selfv.get("_ignored") is st.ign0),
+                                                  ("receiver's sizes untouched", st.sizes0 == {1: 10, 2: 20, 101: 5, 102: 6}),
+                                                  ("derived context ignores old and new names", set(st.ctor_args[-1]) == {101, 102, 103, 104}),
+                                                  ("derived context knows the new names with size 0", dict(st.ctor_args[-2]) == {1: 10, 2: 20, 101: 5, 102: 6, 103: 0, 104: 0})],
+                    note="a concrete instance (sets and dicts of concrete keys): what is proved is the FRAME - no path of the function writes to the receiver",
+                    canaries=[("receiver's set extended in place (attribute)", "return self.__class__(c, set(ignored) | set(self._ignored))", "self._ignored |= set(ignored); return self.__class__(c, self._ignored)"),
+                              ("receiver's set extended in place (alias)", "return self.__class__(c, set(ignored) | set(self._ignored))", "a = self._ignored; a |= set(ignored); return self.__class__(c, a)"),
+                              ("old ignored names forgotten", "set(ignored) | set(self._ignored)", "set(ignored)")])
+
+
+gc_with_ignored = mk_with_ignored("C10")
+CONTRACTS += [gi_sorted, gc_with_ignored]
